@@ -7,6 +7,7 @@ CONSTANTS
   Heads <- SHeads
   Menu <- SMenu
   Plans <- SPlans
+  Wraps <- GWraps
   NoBarChoices <- GNoBar
   ArgVecs <- MCArgVecs
   CheckArgs = {}
